@@ -371,7 +371,12 @@ func (state *inflate) readLitDistLens(ctx *dynamicHeaderReader, hdist, hlit int)
 
 			i := int(3 + ret)
 
-			if curr+i > end || prev == -1 {
+			last := curr + i
+			if curr <= int(litTableSize+hlit) && last > int(litTableSize+hlit) {
+				// the run crosses into the distance lengths, which start at litLen
+				last += int(litLen - litTableSize - hlit)
+			}
+			if last > end || prev == -1 {
 				err = errInvalidBlock
 				goto END
 			}
